@@ -47,7 +47,7 @@ def doc_spec_stream(script, o):
         if not vis:
             return kids
         dur = (n["t1"] - n["t0"]) if n["t1"] is not None else None
-        keep = bool(kids) or (dur is not None and dur > thr) or dur is None and bool(kids)
+        keep = bool(kids) or (dur is not None and dur >= thr) or dur is None and bool(kids)
         if not keep:
             return []
         me = ["E:%d:%d:%d" % (depth, n["fn"], n["t0"])] + kids
